@@ -306,7 +306,7 @@ impl Mode<Option<f64>> for Weibull {
     /// # Formula
     ///
     /// ```text
-    /// if k == 1 {
+    /// if k <= 1 {
     ///     0
     /// } else {
     ///     λ((k - 1) / k)^(1 / k)
@@ -315,7 +315,9 @@ impl Mode<Option<f64>> for Weibull {
     ///
     /// where `k` is the shape and `λ` is the scale
     fn mode(&self) -> Option<f64> {
-        let mode = if ulps_eq!(self.shape, 1.0) {
+        // for k < 1 the density decreases from its pole at 0 (and the closed form below would take a
+        // fractional power of a negative number)
+        let mode = if self.shape < 1.0 || ulps_eq!(self.shape, 1.0) {
             0.0
         } else {
             self.scale * ((self.shape - 1.0) / self.shape).powf(1.0 / self.shape)
